@@ -194,10 +194,38 @@ def run(ctx):
 
 
 def where_of(mc, name):
-    r = mc.classes['Bicomplex'].lookup(name)
+    """where a report about Bicomplex.<name> points to; a private helper that was renamed or moved is reported at the class"""
+    ci = mc.classes['Bicomplex']
+    r = ci.lookup(name)
     if r is None:
+        if name.startswith('_') and not name.startswith('__'):
+            return mc.where(ci.node)
         raise AnalysisError('anchor vanished: Bicomplex.%s' % name)
     return mc.where(r[1])
+
+
+def singular_power_helper(mc):
+    """name of the method that __pow__ hands the non invertible elements to: the one method of the class with a single
+    parameter that the body of __pow__ calls, apart from the elementary functions it is built on"""
+    import ast
+    from ..srcmodel import called_names
+    ci = mc.classes['Bicomplex']
+    r = ci.lookup('__pow__')
+    if r is None:
+        raise AnalysisError('anchor vanished: Bicomplex.__pow__')
+    # .. and it is called on a selection of the elements (self[mask].helper(p))
+    on_selection = {n.func.attr for n in ast.walk(r[1]) if isinstance(n, ast.Call) and isinstance(n.func, ast.Attribute)
+                    and isinstance(n.func.value, ast.Subscript)}
+    cands = []
+    for nm in sorted(called_names(r[1]) & on_selection):
+        q = ci.lookup(nm)
+        if q is None or q[0] != 'method' or nm in ('log', 'exp', 'mod_c', 'norm', 'conjugate'):
+            continue
+        if len(q[1].args.args) == 2:
+            cands.append(nm)
+    if len(cands) != 1:
+        raise AnalysisError('anchor vanished: the helper of Bicomplex.__pow__ for non invertible elements (candidates %s)' % cands)
+    return cands[0]
 
 
 def ring(ctx, mc):
@@ -483,7 +511,8 @@ def branch(ctx, mc):
             ndarr.POSITIVE_ATOMS.add('TINY')
             cref = I.get_global('multicomplex', 'Bicomplex')
             try:
-                a = I.getattr(cref, '_arg_c')(Arr((), [Poly.const(re1) + I_ * im1]), Arr((), [Poly.const(re2) + I_ * im2]))
+                # through the public method arg_c() of an object built from the two components
+                a = I.getattr(cref(Arr((), [Poly.const(re1) + I_ * im1]), Arr((), [Poly.const(re2) + I_ * im2])), 'arg_c')()
                 a = a.item() if isinstance(a, Arr) else a
                 a = Poly.of(a)
                 k = None
@@ -656,7 +685,7 @@ def powers(ctx, mc):
     z1, z2, p = Poly.sym('z1'), Poly.sym('z2'), Poly.sym('p')
     Z = bic(I, z1, z2)
     try:
-        got = comps(I.getattr(Z, '_pow_singular')(p))
+        got = comps(I.getattr(Z, singular_power_helper(mc))(p))
         fm = ndarr.s_pow(z1 - I_ * z2, p)
         fp = ndarr.s_pow(z1 + I_ * z2, p)
         want = ((fm + fp) * HALF, (fm - fp) * HALF * I_)
